@@ -8,6 +8,7 @@
 -/
 import TypedpyModel.Drive.Wire
 import TypedpyModel.Sem.SchemaToCode
+import TypedpyModel.Sem.SchemaEmit
 namespace Typedpy.Drive.SchemaCode
 open Lean (Json)
 open Typedpy Typedpy.Wire
@@ -160,6 +161,21 @@ partial def declToJson : FieldDecl → Json
   | .noneF => Json.mkObj [("k", "noneF")]
   | .anything => Json.mkObj [("k", "anything")]
 
+/-- property names at every depth (targets of annotations / keyword-argument names) -/
+partial def propNamesOf : Schema → List String
+  | .arrOf s _ => propNamesOf s
+  | .arrPos ss _ _ => (ss.map propNamesOf).flatten
+  | .mapOf v _ _ => propNamesOf v
+  | .obj props _ _ _ => props.map (·.1) ++ (props.map fun (_, s) => propNamesOf s).flatten
+  | .allOf ss | .anyOf ss | .oneOf ss | .notS ss => (ss.map propNamesOf).flatten
+  | _ => []
+
+/-- the string is exactly one name token (an identifier that is not a keyword) -/
+def isPyName (X : PyGram.Ora) (n : String) : Bool :=
+  match PyGram.tokens X n.toList with
+  | .ok [.name m, .newline] => m == n.toList
+  | _ => false
+
 def siteJson (s : StringSite) : Json :=
   Json.mkObj [("site", Json.str s.site), ("source", Json.str s.source),
     ("lexed", match PyLex.pyLexStr s.source with | some v => Json.str v | none => Json.null),
@@ -198,9 +214,57 @@ def run (j : Json) : Except String Json := do
     | some d => PyLex.pyLexStr (PyLex.docWrap d)
   let crash := (defs.map fun (_, d) => topCrashes d).flatten ++ topCrashes s
   let ordered := refsOrdered [] defs && (refsOf s).all (defs.map (·.1)).contains
+  -- the emitted TEXT and the structural recogniser (Sem/SchemaEmit.lean, Sem/PyGram.lean)
+  let natsOf (k : String) : Except String (List Nat) := match optField j k with
+    | none => pure []
+    | some x => do (← x.getArr?).toList.mapM (·.getNat?)
+  let idstart ← natsOf "idstart"
+  let idcont ← natsOf "idcont"
+  let X : PyGram.Ora := ⟨fun c => idstart.contains c.toNat, fun c => idcont.contains c.toNat⟩
+  let floats : List (Q × List Char) ← match optField j "floats" with
+    | none => pure []
+    | some x => (← x.getArr?).toList.mapM fun e => do
+      let p ← e.getArr?
+      pure ((⟨← p[0]!.getInt?, ← p[1]!.getNat?⟩ : Q), (← p[2]!.getStr?).toList)
+  let O : Emit.EOra := ⟨pr, fun q => match floats.find? (fun e => e.1 == q) with
+    | some e => e.2 | none => ['?']⟩
+  let floatOk (t : List Char) : Bool := match t with
+    | '-' :: r => PyGram.isNumText r
+    | r => PyGram.isNumText r
+  let oracleOk := floats.all (fun e => floatOk e.2)
+  let defDescs : List (Option String) ← match optField j "defDescs" with
+    | none => pure (defs.map fun _ => none)
+    | some x => (← x.getArr?).toList.mapM fun e => match e with
+      | .null => pure none
+      | e => do pure (some (← e.getStr?))
+  let defSrcs : List Emit.ClassSrc := (defs.zip defDescs).map fun ((n, d), ds) => ⟨n, ds, d⟩
+  let write := (← optStr j "api") == some "write"
+  let text := Emit.moduleText O write defSrcs ⟨name, desc, s⟩
+  let recog := PyGram.recognise X text
+  -- the side conditions of `C09.emitted_module_accepted_partial`
+  let srcOk := defSrcs.all Emit.classSrcOk && Emit.classSrcOk ⟨name, desc, s⟩
+  let clean := PyGram.textClean text
+  let nestOk := PyGram.nestOk X text
+  let recogReal : Option PyGram.Verdict := match optField j "code" with
+    | some (.str c) => some (PyGram.recognise X c.toList)
+    | _ => none
+  let mutantsJ : List String ← match optField j "mutants" with
+    | none => pure []
+    | some x => (← x.getArr?).toList.mapM (·.getStr?)
+  let mutantVerdicts := mutantsJ.map fun m => (PyGram.recognise X m.toList).name
+  let topProps (x : Schema) : List String := match x with
+    | .mapAny _ _ _ | .mapOf _ _ _ => []
+    | y => propNamesOf y
+  let targets := (defs.map fun (_, d) => topProps d).flatten ++ topProps s
+  let plainNames := name :: defs.map (·.1) ++ (defs.map fun (_, d) => refsOf d).flatten ++ refsOf s
+  -- `__x` (not `__x__`) inside a class body is name-mangled to `_Class__x`
+  let mangled (n : String) : Bool := n.startsWith "__" && !n.endsWith "__"
+  let nameIssue := targets.any (fun n => !isPyName X n || PyGram.forbiddenTarget n.toList || mangled n)
+    || plainNames.any (fun n => !isPyName X n || mangled n)
   let phase :=
     if !crash.isEmpty then "gen"
-    else if unlexable then "compile"
+    else if recog == .reject then "compile"
+    else if recog == .unknown && unlexable then "compile"
     else if !ordered then "exec"
     else "ok"
   let env := defsEnv [] defs
@@ -215,6 +279,13 @@ def run (j : Json) : Except String Json := do
   pure (Json.mkObj ([
     ("phase", Json.str phase),
     ("crashes", strs crash),
+    ("text", if crash.isEmpty then Json.str (String.ofList text) else Json.null),
+    ("recog", Json.str recog.name),
+    ("recogReal", match recogReal with | some v => Json.str v.name | none => Json.null),
+    ("mutantVerdicts", strs mutantVerdicts),
+    ("oracleOk", Json.bool oracleOk),
+    ("srcOk", Json.bool srcOk), ("clean", Json.bool clean), ("nestOk", Json.bool nestOk),
+    ("nameIssue", Json.bool nameIssue),
     ("refsOrdered", Json.bool ordered),
     ("refs", strs ((defs.map fun (_, d) => refsOf d).flatten ++ refsOf s)),
     ("sites", Json.arr (sites.map siteJson).toArray),
